@@ -42,3 +42,170 @@ Print Assumptions C20_sorted_iteration_order_irrelevant.
 Print Assumptions C20_sorted_iteration_is_a_permutation.
 Print Assumptions C20_unsorted_iteration_refuted.
 Print Assumptions C20_hash_iteration_sites.
+
+(** * At the level of the conversion models
+
+    Definitions (Order/Determinism_proofs.v).  A `HashMap<LayerKey, Vec<Shape>>` is an association list
+    [shapemap] with pairwise distinct keys (Raw/RawData.v); the order of the list stands for the order in which
+    the hash map yields its entries in one particular process.
+    [map_permuted m1 m2]      := NoDup (map fst m1) /\ Permutation m1 m2;
+    [lib_maps_permuted L1 L2] := same name, units, layer table; cells pairwise with the same name and the same
+                                 layout; abstracts pairwise with the same name, outline and ports (same nets, in
+                                 the same order) where each port's [ap_shapes] and the abstract's [ab_blockages]
+                                 are [map_permuted]: ONE library as two processes may hold it;
+    [lib_maps_wf L]           := lib_maps_permuted L L (every map has distinct keys);
+    [perm_oracle h]           := forall m, Permutation (h m) m: an iteration order of a hash map. *)
+From L21 Require Import Base.Outcome Raw.RawData Order.Determinism_proofs.
+From L21 Require Raw.RawProto Raw.RawGdsExport Raw.RawGds Raw.RawLef Raw.RawLefTypes Tetris.Stack Tetris.Compile Tetris.TProto Gds.GdsData Order.DepOrder.
+
+(** `sorted_by_layer` (data.rs) as modelled is the sorted iteration of the first theorem of this file *)
+Theorem C20_sorted_by_layer_order_irrelevant :
+  forall m1 m2 : shapemap, NoDup (map fst m1) -> Permutation m1 m2 ->
+    RawProto.sorted_by_layer m1 = RawProto.sorted_by_layer m2.
+Proof. exact sorted_by_layer_order_irrelevant. Qed.
+
+(** ** raw -> protobuf (Library::to_proto; model Raw/RawProto.v, property C14).
+    The exporter of the tree visits both maps through `sorted_by_layer`: its result does not depend on the
+    order in which the maps list their entries.  [xrot] is the rotation variant (C14): the statement covers
+    [to_proto] and [to_proto_orig]. *)
+Theorem C20_proto_export_order_independent :
+  forall xrot L1 L2, lib_maps_permuted L1 L2 ->
+    RawProto.to_proto_with xrot RawProto.sorted_by_layer L1 = RawProto.to_proto_with xrot RawProto.sorted_by_layer L2.
+Proof. exact proto_export_order_independent. Qed.
+
+Theorem C20_proto_export_order_independent_code :
+  forall L1 L2, lib_maps_permuted L1 L2 -> RawProto.to_proto L1 = RawProto.to_proto L2.
+Proof. intros L1 L2. exact (proto_export_order_independent RawProto.export_rotation (L1 := L1) (L2 := L2)). Qed.
+
+(** the same in the form of DESIGN.md section 5: the hash map yields its entries in an arbitrary order [h],
+    the code sorts what it gets; any two orders give the same message *)
+Theorem C20_proto_export_any_hash_order :
+  forall xrot h1 h2 L, perm_oracle h1 -> perm_oracle h2 -> lib_maps_wf L ->
+    RawProto.to_proto_with xrot (fun m => RawProto.sorted_by_layer (h1 m)) L =
+    RawProto.to_proto_with xrot (fun m => RawProto.sorted_by_layer (h2 m)) L.
+Proof. exact proto_export_any_hash_order. Qed.
+
+(** the exporter that iterates in map order -- the code before /repo commit 4604246 -- is not deterministic:
+    one port on two layers, both runs succeed, the messages differ *)
+Theorem C20_proto_export_map_order_refuted :
+  exists L1 L2 P1 P2, lib_maps_permuted L1 L2 /\
+    RawProto.to_proto_with RawProto.export_rotation (fun m => m) L1 = Ok P1 /\
+    RawProto.to_proto_with RawProto.export_rotation (fun m => m) L2 = Ok P2 /\ P1 <> P2.
+Proof. exact proto_export_map_order_refuted. Qed.
+
+(** ** raw -> GDSII (Library::to_gds; model Raw/RawGdsExport.v, property C07).
+    The model has no order argument (it transcribes the tree: `sorted_by_layer` inside export_abstract_port;
+    blockages are not exported).  [cfg] is the C07 variant record: the statement covers [export_lib] and
+    [export_lib_orig]. *)
+Theorem C20_gds_export_order_independent :
+  forall cfg L1 L2, lib_maps_permuted L1 L2 -> RawGdsExport.export_lib_gen cfg L1 = RawGdsExport.export_lib_gen cfg L2.
+Proof. exact gds_export_order_independent. Qed.
+
+(** [gds_export_lib_with ord] (Order/Determinism_proofs.v) is the text of the model with the visiting order of
+    a port's shapes as an argument; at [sorted_by_layer] it is the model *)
+Theorem C20_gds_export_with_sorted_is_model :
+  forall cfg L, gds_export_lib_with RawGdsExport.sorted_by_layer cfg L = RawGdsExport.export_lib_gen cfg L.
+Proof. exact gds_export_lib_with_sorted. Qed.
+
+Theorem C20_gds_export_any_hash_order :
+  forall cfg h1 h2 L, perm_oracle h1 -> perm_oracle h2 -> lib_maps_wf L ->
+    gds_export_lib_with (fun m => RawGdsExport.sorted_by_layer (h1 m)) cfg L =
+    gds_export_lib_with (fun m => RawGdsExport.sorted_by_layer (h2 m)) cfg L.
+Proof. exact gds_export_any_hash_order. Qed.
+
+Theorem C20_gds_export_map_order_refuted :
+  exists L1 L2 G1 G2, lib_maps_permuted L1 L2 /\
+    gds_export_lib_with (fun m => m) RawGdsExport.xcfg_fixed L1 = Ok G1 /\
+    gds_export_lib_with (fun m => m) RawGdsExport.xcfg_fixed L2 = Ok G2 /\ G1 <> G2.
+Proof. exact gds_export_map_order_refuted. Qed.
+
+(** Dates.  `GdsLibrary::new` / `GdsStruct::new` stamp the time of the call; the model has no clock argument:
+    every date field of an exported library is the constant [zero_dates].  The harnesses overwrite the dates
+    of the implementation's output with a constant before comparing (c07: zeros, c20: a fixed date). *)
+Theorem C20_gds_export_dates_constant :
+  forall cfg L g, RawGdsExport.export_lib_gen cfg L = Ok g ->
+    GdsData.l_dates g = RawGdsExport.zero_dates /\
+    Forall (fun s => GdsData.s_dates s = RawGdsExport.zero_dates) (GdsData.l_structs g).
+Proof. exact gds_export_dates_constant. Qed.
+
+(** ** The importers.  Their models take no order argument: *)
+Check (RawProto.from_proto : layers -> RawProto.plib -> RawProto.res library).
+Check (RawGds.import_lib : RawGds.cfg -> layers -> GdsData.library -> RawGds.ires library).
+Check (RawLef.import_gen : RawLef.variant -> RawLefTypes.llib -> option RawLefTypes.layers ->
+                           RawLef.res (list RawLefTypes.abstract * RawLefTypes.layers)).
+Check (Compile.compile : Compile.fixes -> Stack.stack -> list Compile.cell -> Stack.res (list (list Compile.shape))).
+Check (TProto.export : TProto.TLib -> DepOrder.res TProto.PLib).
+Check (TProto.import : TProto.PLib -> DepOrder.res TProto.TLib).
+(** so each is a function of its input alone; that this is a faithful picture -- the code iterates no hash
+    container in those conversions -- is [C20_conversion_sites_covered] below.  What the protobuf importer
+    BUILDS are hash maps; the library it returns has maps with distinct keys, so re-exporting it is inside the
+    exporter theorem whatever order those freshly built maps are iterated in: *)
+Theorem C20_import_deterministic_proto_maps_wf :
+  forall ly0 Pm L, RawProto.from_proto ly0 Pm = Ok L -> lib_maps_wf L.
+Proof. exact proto_import_maps_wf. Qed.
+
+Theorem C20_proto_reexport_any_hash_order :
+  forall xrot h ly0 Pm L, perm_oracle h -> RawProto.from_proto ly0 Pm = Ok L ->
+    RawProto.to_proto_with xrot (fun m => RawProto.sorted_by_layer (h m)) L =
+    RawProto.to_proto_with xrot RawProto.sorted_by_layer L.
+Proof. exact proto_reexport_any_hash_order. Qed.
+
+(** maps that are only looked up: the answer does not depend on the order of the entries *)
+Theorem C20_lookup_order_irrelevant :
+  forall m1 m2 k, map_permuted m1 m2 -> sm_get m1 k = sm_get m2 k.
+Proof. exact lookup_order_irrelevant. Qed.
+
+(** ** Conversion by conversion.  [conversions] (Order/Determinism_proofs.v) lists, for every conversion, the
+    hash-typed names its code touches with the operations used, its model, and the (file, function) pairs whose
+    iteration sites belong to it.  [table_ok] checks the table against the sites regenerated from the sources:
+    every site belongs to exactly one row; a row of kind [NoHashIteration] (all importers, the gridded
+    conversions) has only sites on the reviewed list of Vec / slice iterations and none through a sort; a row of
+    kind [SortedIteration] (the three raw exporters, Layers::from_proto, the helper) has a sorted site and
+    nothing that is neither sorted nor reviewed. *)
+Theorem C20_conversion_sites_covered : table_ok hash_iter_sites = true.
+Proof. vm_compute. reflexivity. Qed.
+
+Example C20_table_refuses_new_iteration :
+  table_ok (("layout21raw/src/proto.rs", "import_abstract", "abs.blockages.iter()", false)%string :: hash_iter_sites) = false /\
+  table_ok (("layout21raw/src/proto.rs", "import_abstract", "sorted_by_layer(abs.blockages)", true)%string :: hash_iter_sites) = false /\
+  table_ok (("layout21raw/src/lef.rs", "export_abstract", "abs.blockages.iter()", false)%string :: hash_iter_sites) = false /\
+  table_ok (("layout21raw/src/gds.rs", "import_layout", "layers.values()", false)%string :: hash_iter_sites) = false.
+Proof. vm_compute. repeat split; reflexivity. Qed.
+
+(** The flag "goes through a sort" of a site is a textual criterion; the theorem behind it needs the sort key to
+    be the map's own key.  It is for `sorted_by_layer`; it is not for `Layers::from_proto`, which sorts the layers
+    of a technology by the layer number TRUNCATED to `i16` while the map is keyed by the 64-bit index: *)
+Theorem C20_sort_by_truncated_key_refuted :
+  exists l1 l2 : list (Z * Z), NoDup (map fst l1) /\ Permutation l1 l2 /\
+    isort (map (fun e => (wrap16 (fst e), snd e)) l1) <> isort (map (fun e => (wrap16 (fst e), snd e)) l2).
+Proof. exact sort_by_truncated_key_refuted. Qed.
+
+(** the hypotheses are satisfiable on a non-trivial input: the two-layer library of the refutations, held in two
+    orders; the libraries differ, the exported messages and streams do not *)
+Example C20_models_nonvacuous :
+  lib_maps_permuted (w_lib w_m12) (w_lib w_m21) /\ w_lib w_m12 <> w_lib w_m21 /\
+  (exists Pm, RawProto.to_proto (w_lib w_m12) = Ok Pm /\ RawProto.to_proto (w_lib w_m21) = Ok Pm /\
+              option_map (fun a => List.length (RawProto.pab_blockages a))
+                         (match RawProto.pb_cells Pm with c :: _ => RawProto.pc_abs c | [] => None end) = Some 2%nat) /\
+  (exists g, RawGdsExport.export_lib (w_lib w_m12) = Ok g /\ RawGdsExport.export_lib (w_lib w_m21) = Ok g).
+Proof.
+  split; [exact w_permuted|]. split; [discriminate|]. split.
+  - eexists. split; [vm_compute; reflexivity|]. split; vm_compute; reflexivity.
+  - eexists. split; vm_compute; reflexivity.
+Qed.
+
+Print Assumptions C20_sorted_by_layer_order_irrelevant.
+Print Assumptions C20_proto_export_order_independent.
+Print Assumptions C20_proto_export_order_independent_code.
+Print Assumptions C20_proto_export_any_hash_order.
+Print Assumptions C20_proto_export_map_order_refuted.
+Print Assumptions C20_gds_export_order_independent.
+Print Assumptions C20_gds_export_with_sorted_is_model.
+Print Assumptions C20_gds_export_any_hash_order.
+Print Assumptions C20_gds_export_map_order_refuted.
+Print Assumptions C20_gds_export_dates_constant.
+Print Assumptions C20_import_deterministic_proto_maps_wf.
+Print Assumptions C20_proto_reexport_any_hash_order.
+Print Assumptions C20_lookup_order_irrelevant.
+Print Assumptions C20_conversion_sites_covered.
+Print Assumptions C20_sort_by_truncated_key_refuted.
